@@ -439,48 +439,74 @@ example : ∃ fl s out,
     [exampleResult, exampleResult] (by intro r hr; simp at hr; subst hr; exact aux_example_reprBoth)
   exact ⟨fl, s, out, h1, h2, h3, h4⟩
 
-/-- … and in the common domain of all three formats: its gob value message is small in every zone -/
+/-! … and in the common domain of all three formats: its gob value message is small in every zone -/
+
+theorem aux_beFixed_len (w n : Nat) : (beFixed w n).length = w := by
+  induction w generalizing n with
+  | zero => rfl
+  | succ w ih => simp [beFixed, ih]
+
+theorem aux_timeBinary_len (z : Zone) (ts : Int) (tb : Bytes) (h : timeBinary z ts = some tb) : tb.length ≤ 16 := by
+  unfold timeBinary at h
+  simp only [] at h
+  cases z with
+  | utc =>
+    simp only [Option.some.injEq] at h; subst h
+    simp [aux_beFixed_len]
+  | fixed off =>
+    simp only [] at h
+    split at h
+    · cases h
+    · split at h
+      · simp only [Option.some.injEq] at h; subst h; simp [aux_beFixed_len]
+      · simp only [Option.some.injEq] at h; subst h; simp [aux_beFixed_len]
+
+/-- the eight fields of the example after the timestamp -/
+def examplePost : List (Option Bytes) :=
+  [fInt exampleResult.latency, fUint exampleResult.bytesOut, fUint exampleResult.bytesIn, fString exampleResult.error,
+   fString (exampleResult.body.getD []), fString exampleResult.method, fString exampleResult.url,
+   exampleResult.headers.map gHeader]
+
+theorem aux_example_payload_len (X : Bytes) :
+    (255 :: 128 :: encFields 1 ([fString exampleResult.attack, fUint exampleResult.seq, fUint exampleResult.code,
+      some X] ++ examplePost)).length = X.length + 62 := by
+  have e : encFields 1 ([fString exampleResult.attack, fUint exampleResult.seq, fUint exampleResult.code, some X] ++ examplePost) =
+      encodeUint 1 ++ gBytes [120] ++ (encodeUint 1 ++ encodeUint 7 ++
+        (encodeUint 1 ++ encodeUint 200 ++ (encodeUint 1 ++ X ++ encFields 1 examplePost))) := rfl
+  rw [e]
+  have h1 : (encFields 1 examplePost).length = 51 := by decide +kernel
+  have h2 : (encodeUint 1).length = 1 := rfl
+  have h3 : (gBytes [120]).length = 2 := rfl
+  have h4 : (encodeUint 7).length = 1 := rfl
+  have h5 : (encodeUint 200).length = 2 := by decide +kernel
+  simp only [List.length_cons, List.length_append, h1, h2, h3, h4, h5]
+  omega
+
 theorem aux_example_reprAll : ReprAll exampleResult := by
   refine ⟨aux_example_reprBoth, fun z => ?_⟩
   refine { num := exampleResult_repr.num, headers := by intro h hh; cases hh; decide, size := ?_ }
   intro p hp
-  -- the payload is `FF 80` + fields; every field but the time is a fixed byte string, the time at most 18 bytes
-  have hb : p.length ≤ 200 := by
-    simp only [valuePayload, fieldPayloads, exampleResult] at hp
-    have hz : ¬ ((1700000000123456789 : Int) = zeroTime ∧ z = Zone.utc) := by
-      intro h; exact absurd h.1 (by decide)
-    simp only [hz, ↓reduceIte] at hp
-    cases ht : timeBinary z 1700000000123456789 with
-    | none => rw [ht] at hp; cases hp
-    | some tb =>
-      rw [ht] at hp
-      simp only [Option.map_some, Option.some.injEq] at hp
-      have htl : tb.length ≤ 16 := by
-        unfold timeBinary at ht
-        simp only [] at ht
-        cases z with
-        | utc => simp only [Option.some.injEq] at ht; subst ht; decide
-        | fixed off =>
-          simp only [] at ht
-          split at ht
-          · cases ht
-          · split at ht
-            · simp only [Option.some.injEq] at ht; subst ht
-              simp [beFixed]
-            · simp only [Option.some.injEq] at ht; subst ht
-              simp [beFixed]
-      subst hp
-      have hg : (gBytes tb).length ≤ 17 := by
-        unfold gBytes encodeUint
-        have : tb.length < 128 := by omega
-        simp only [this, ↓reduceIte, List.length_append, List.length_cons, List.length_nil]
-        omega
-      simp only [fString, fUint, fInt, List.length_cons, encFields, List.length_append]
-      have : (gHeader [([88, 45, 65], [[49], [98, 32, 99]])]).length = 13 := by decide
-      simp (config := { decide := true }) [gBytes, encodeUint, this, Option.getD, Option.map]
+  have hz : ¬ (exampleResult.timestamp = zeroTime ∧ z = Zone.utc) := fun h => absurd h.1 (by decide)
+  unfold valuePayload fieldPayloads at hp
+  simp only [hz, ↓reduceIte] at hp
+  cases ht : timeBinary z exampleResult.timestamp with
+  | none => rw [ht] at hp; simp at hp
+  | some tb =>
+    rw [ht] at hp
+    simp only [Option.map_some, Option.some.injEq] at hp
+    subst hp
+    have hk := aux_example_payload_len (gBytes tb)
+    have htl := aux_timeBinary_len z _ tb ht
+    have hg : (gBytes tb).length ≤ 17 := by
+      unfold gBytes encodeUint
+      have : tb.length < 128 := by omega
+      simp only [this, ↓reduceIte, List.length_append, List.length_cons, List.length_nil]
       omega
-  unfold tooBig
-  omega
+    have : (255 :: 128 :: encFields 1 ([fString exampleResult.attack, fUint exampleResult.seq, fUint exampleResult.code,
+      some (gBytes tb)] ++ examplePost)).length < tooBig := by rw [hk]; unfold tooBig; omega
+    exact this
+
+local instance : Decidable (ZoneOK (Zone.fixed 3600)) := by unfold ZoneOK; infer_instance
 
 example : ∃ fl s out,
     allCodecs.runChain (.gob ⟨.utc, trivial⟩) (allCodecs.enc (.gob ⟨.utc, trivial⟩) [exampleResult, exampleResult])
